@@ -58,6 +58,58 @@ macs = hmac-sha2-256-etm@openssh.com, hmac-sha2-512
 '''
 
 
+def ports_leg(ck, S, singles):
+    """Targets-file lines with and without a port, in every order: the port a target is scanned on is its own (the line's, or the
+    -p / default port), never a neighbour's, and its result is the single-target result."""
+    names = sorted(S)[:3]
+    layouts = [((2222, None, 2022), None), ((None, 2222, None), None), ((2222, None, None), 2200), ((None, None, 2222), 2200), ((2222, 2022, None), None)]
+    scs, meta = [], []
+    for ports, dflt in layouts:
+        for threads in (1, 3):
+            servers, lines, labels = {}, [], []
+            for i, (n, pt) in enumerate(zip(names, ports)):
+                host = multi.ip_of(i)
+                real = pt if pt is not None else (dflt or 22)
+                servers[(host, real)] = S[n]
+                lines.append(host if pt is None else '%s:%d' % (host, pt))
+                labels.append('%s:%d' % (host, real))
+            argv = ['-j', '--skip-rate-test', '--threads', str(threads)] + (['-p', str(dflt)] if dflt else []) + ['-T', '{tmp}/targets.txt']
+            scs.append({'argv': argv, 'servers': servers, 'files': {'targets.txt': '\n'.join(lines) + '\n'}})
+            meta.append((ports, dflt, threads, labels))
+    for (ports, dflt, threads, labels), sc, r in zip(meta, scs, runner.run_many(scs)):
+        ck.evaluated()
+        if r.get('harness_error') or r.get('hang'):
+            raise common.Machinery('mixed-port run failed: %r' % (r.get('harness_error') or 'hang'))
+        replay = {'lines': sc['files']['targets.txt'], 'argv': sc['argv'], 'exit': r['exit'], 'stdout': r['stdout'][-2500:]}
+        dialled = sorted({'%s:%d' % (e['host'], e['port']) for e in r['events'] if e.get('ev') == 'connect' and 'host' in e})
+        if dialled != sorted(labels):
+            ck.violation('target-port-depends-on-neighbour', 'lines %r (default port %s): dialled %r, expected %r'
+                         % (sc['files']['targets.txt'].split(), dflt or 22, dialled, sorted(labels)), replay)
+            continue
+        try:
+            doc = json.loads(r['stdout'])
+        except ValueError:
+            ck.violation('mixed-port-json-unparsable', 'stdout of the mixed-port -T run is not JSON', replay)
+            continue
+        got = sorted(el.get('target') for el in doc if isinstance(el, dict))
+        ok = True
+        if got != sorted(labels):
+            ck.violation('target-port-depends-on-neighbour', 'lines %r (default port %s): dialled %r, reported %r, expected %r'
+                         % (sc['files']['targets.txt'].split(), dflt or 22, dialled, got, sorted(labels)), replay)
+            ok = False
+        else:
+            for el in doc:
+                i = labels.index(el['target'])
+                ref = json.loads(singles[(sorted(S)[i], True, False, i)]['stdout'])
+                ref['target'] = el['target']
+                if el != ref:
+                    ck.violation('isolation view=json channel=port-mix', 'target %s: JSON differs from the single-target result at %s' % (el['target'], _json_diff(ref, el)[:3]), replay)
+                    ok = False
+        if ok:
+            ck.cov['traces_validated_against_impl'] += 1
+            ck.nontrivial(('ports', ports, dflt, threads))
+
+
 def run(tier):
     ck = common.Check('C07', tier)
     rnd = random.Random(ck.seed)
@@ -160,6 +212,7 @@ def run(tier):
         tr = multi.build_trace(r, labels, k, js)
         traces.append(tr)
         tmeta.append(m)
+    ports_leg(ck, S, singles)
     verdicts = multi.validate(ck, traces)
     for m, tr, (ok, info) in zip(tmeta, traces, verdicts):
         if ok:
